@@ -1,6 +1,9 @@
+import warnings
+
 import numpy as np
 
 from astropy.wcs import WCS
+from astropy.units import Unit
 
 from glue.core import Subset, Data
 from glue.config import data_exporter
@@ -23,7 +26,20 @@ def make_component_header(component, header):
     """
 
     # Add units information
-    header["BUNIT"] = component.units
+    units = component.units
+    try:
+        header["BUNIT"] = units
+    except ValueError:
+        # FITS header values are restricted to printable ASCII characters, so
+        # units such as 'Å' or 'µm' cannot be written as they are. We use the
+        # FITS spelling of the unit if there is one ('Angstrom', 'um'), and
+        # otherwise leave the units out rather than failing to export the data
+        try:
+            header["BUNIT"] = Unit(units).to_string('fits')
+        except Exception:
+            warnings.warn("Units {0!r} cannot be written to a FITS header "
+                          "and will be left out".format(units))
+            header["BUNIT"] = ''
 
     return header
 
